@@ -284,6 +284,8 @@ convert(struct func *f, struct type *dst, struct type *src, struct value *l)
 		return NULL;
 	if (!(src->prop & PROPREAL) || !(dst->prop & PROPREAL))
 		fatal("internal error; unsupported conversion");
+	if (src->kind == TYPELDOUBLE || dst->kind == TYPELDOUBLE)
+		fatal("long double is not yet supported");
 	if (dst->kind == TYPEBOOL) {
 		class = 'w';
 		if (src->prop & PROPINT) {
